@@ -1,6 +1,6 @@
 (* C15 — Directory nodes satisfy the map-node contract on any link list (plain / generic link map part)
    and on every sharded directory written by this library. *)
-From UV Require Import Hamt.Build Hamt.Read Hamt.TrieProofs Hamt.ShardDecode Hamt.Refine Hamt.RefineAny Base.Varint.
+From UV Require Import Hamt.Build Hamt.Read Hamt.TrieProofs Hamt.ShardDecode Hamt.Refine Hamt.RefineAny Hamt.RefModel Hamt.RefHistory Base.Varint.
 From Coq Require Import Permutation.
 From UV Require Import Dir.Plain Dir.PlainProofs.
 Local Open Scope N_scope.
@@ -47,3 +47,15 @@ Theorem C15_any_wellformed_shard : forall size lg, permitted size lg ->
   /\ fst (shard_length nofault root) = Ok (N.of_nat (length entries)).
 Proof. exact wellformed_shard_is_map. Qed.
 Print Assumptions C15_any_wellformed_shard.
+
+(* ... and on every shard the REFERENCE implementation writes after any history of Sets and Removes (Hamt/RefModel.v) the
+   map-node contract holds: as many iteration pairs as the length, every yielded key found with the yielded link, others not found *)
+Theorem C15_reference_shard_map_contract : forall size lg, permitted size lg ->
+  forall H : bytes -> bytes, (forall k, wf_bytes (H k) = true) -> (forall k, length (H k) = 8%nat) ->
+  forall fuel ops t, Forall (hop_ok H) ops -> hrun lg fuel ops = Ok t ->
+  let root := fst (serialize_node size HashMurmur3 (pad_len size) (BShard t)) in
+  fst (shard_length nofault root) = Ok (N.of_nat (length (iterate nofault root)))
+  /\ (forall k v, In (IYield k v) (map snd (iterate nofault root)) -> fst (Read.lookup nofault root (H k) k) = Ok v)
+  /\ (forall k, (forall v, ~ In (IYield k v) (map snd (iterate nofault root))) -> fst (Read.lookup nofault root (H k) k) = Err ENotFound).
+Proof. exact ref_history_contract. Qed.
+Print Assumptions C15_reference_shard_map_contract.
